@@ -70,6 +70,10 @@ def corpus():
     cs.append(dict(cmds=_adds(['/static/<name:path>', '/n/<k:int>', '/w/<x>', '/f/<p:path>/end', '/s/<v:re:[a-c]+>'])
                    + _probes(['/static/a\nb', '/static/a/b\n', '/static/\n', '/static/a/b', '/static/a\n\n', '/static/a\x85b', '/static/a\u2028b',
                               '/static/a\x0bb', '/n/12\n', '/n/\n12', '/w/a\nb', '/w/a\n', '/f/a\nb/end', '/f/a/end\n', '/s/ab\n', '/s/a\nb'])))
+    # decomposed characters (letter + combining mark, ANGSTROM SIGN, Hangul jamo) reach the router as sent, not composed
+    cs.append(dict(cmds=_adds(['/wiki/<page>', '/u/<c:re:.>', '/café', '/k/\u00c5', '/k/<x>/z'])
+                   + _probes(['/wiki/cafe\u0301', '/wiki/café', '/u/e\u0301', '/u/é', '/cafe\u0301', '/café', '/k/\u212b', '/k/A\u030a', '/k/\u00c5',
+                              '/k/\u1100\u1161/z', '/u/\u1100\u1161', '/u/\uac00'])))
     # conflicting filters: the second add is rejected
     cs.append(dict(cmds=_adds(['/a/<x:int>', '/a/<x>', '/a/<y:int>/z', '/a/<x:re:[a-c]+>'])
                    + _probes(['/a/12', '/a/zz', '/a/12/z', '/a/ab', '/a/١٢', '/a/-3/z', '/a/1.5'])))
